@@ -657,7 +657,7 @@ class CaseBudget(BaseException):
     """raised inside a worker shortly before the parent's wall-clock limit: what was decided so far is reported"""
 
 
-MAX_SPLIT_LEAVES = 16
+MAX_SPLIT_LEAVES = 32
 
 
 def _worker(fn, pid, name, tier, kwargs, conn, soft_limit=None):
